@@ -180,6 +180,7 @@ def gen_kwargs(rng):
 def pol_tweak(pol, cfg, rng):
     if rng.random() < 0.04:
         pol['muck'] = 'any'
+        pol['muck_p'] = rng.choice([0.1, 0.6, 0.9])
 
 
 def nontrivial(ctx):
